@@ -14,7 +14,9 @@ TECHNIQUE = ("Lean 4 model of the helper's ciphertext fetch (append-only partial
              "twin grid for the direct upload")
 LEVEL_TEXT = ("PARTIAL. Proved for every ciphertext, positive chunk size and every list of disturbed attempts followed by an undisturbed "
               "one: the ciphertext file the helper encodes from equals the client's ciphertext, hence (for any encoder that is a function "
-              "of ciphertext and parameters) shares, read-cap and verify-cap equal those of the direct upload; a file with at least "
+              "of ciphertext and parameters) shares, read-cap and verify-cap equal those of the direct upload; the client-side reader "
+              "(EncryptAnUploadable behind RemoteEncryptedUploadable) returns exactly the ciphertext bytes asked for, for every sequence "
+              "of forward reads and every client chunk size, also when a resume makes it skip ahead in several pieces; a file with at least "
               "total_shares distinct shares and a readable UEB is reported present with no upload helper and no share write. Network "
               "and file-system timing is not modelled: a disturbance is the failure of the n-th read_encrypted call, a failure after the "
               "fetch completed, a disconnect or a helper restart between attempts; several concurrent clients for one storage index "
@@ -23,7 +25,7 @@ LEVEL_TEXT = ("PARTIAL. Proved for every ciphertext, positive chunk size and eve
 LEVEL_NOTE = ("Lean kernel + standard axioms; encoder abstract (C01/C36 are about the real one); hand-written model; the harness shrinks "
               "CHKCiphertextFetcher.CHUNK_SIZE for most scenarios so that small files have many interruption points (one scenario per "
               "run uses the real 50 KiB).")
-RULE = ("a fixed corpus first (a 217145-byte file, production 50 KiB chunk sizes on helper and client side, helper upload cut "
+RULE = ("function-level histories of remote_read_encrypted on the real client reader (25 fixed + random); a fixed corpus first (a 217145-byte file, production 50 KiB chunk sizes on helper and client side, helper upload cut "
         "after every chunk 0..last and after the complete fetch, by error / disconnect / helper restart, a resume of a resume, and a "
         "7-chunk variant with both chunk sizes 1000), each resumed and compared with the direct upload (caps, shares, downloaded "
         "plaintext); then seeded scenarios: k/N/servers/segment size/file size x chunk size x a list of 0..3 disturbed attempts (error on the i-th "
@@ -394,6 +396,20 @@ def gen_pre(rng):
     return s
 
 
+def pre_corpus():
+    """fixed pre-existing-copy cases (independent of VERIF_SEED): share numbers doubled across servers while others are lost
+    (files >= N, distinct < N, also distinct < k), plus healthy / lacking / doubled-but-complete / empty grids"""
+    res = []
+    for j, (k, n, srv, layout) in enumerate([(2, 3, 4, "dup-missing"), (3, 4, 4, "dup-missing"), (3, 5, 6, "dup-missing-below-k"),
+                                             (1, 2, 3, "dup-missing"), (2, 4, 5, "dup-missing-below-k"), (2, 3, 4, "healthy"),
+                                             (2, 3, 4, "lacking"), (2, 3, 4, "dup-all"), (2, 3, 4, "none")]):
+        s = Scenario()
+        s.k, s.n, s.num_servers, s.maxseg, s.size = k, n, srv, 128, 300
+        s.layout, s.policy, s.seed, s.corpus = layout, "fifo", 4460 + j, True
+        res.append(s)
+    return res
+
+
 def pre_dict(s):
     return dict(pre=True, k=s.k, n=s.n, num_servers=s.num_servers, maxseg=s.maxseg, size=s.size, layout=s.layout,
                 policy=s.policy, seed=s.seed)
@@ -494,6 +510,8 @@ def run_preexisting(ctx, s):
             shape = "%s files%sN distinct%sN%s" % (s.layout, ">=" if len(answers) >= s.n else "<", "=" if len(distinct0) >= s.n else "<",
                                                   " distinct<k" if len(distinct0) < s.k else "")
             ctx.count("pre:" + shape)
+            if getattr(s, "corpus", False) and s.layout.startswith("dup-missing") and not (len(answers) >= s.n and len(distinct0) < s.n):
+                raise common_infra("pre-existing corpus case %s does not have files >= N with distinct < N: %s" % (s.seed, answers))
             # ---- helper on gH
             gH.broker.get_stub_server = lambda sid: [x for x in gH.broker.servers if x.get_serverid() == sid][0]
             helper = offloaded.Helper(os.path.join(gH.basedir, "helper"), gH.broker, cH._secret_holder, None, None)
@@ -557,6 +575,54 @@ def run_preexisting(ctx, s):
             gD.close()
 
 
+def reader_probe(ctx, rng, n):
+    """function-level correspondence for the client-side reader: real EncryptAnUploadable (CHUNKSIZE patched per case) behind a
+    real RemoteEncryptedUploadable, answering forward (sometimes backward / beyond-EOF) remote_read_encrypted calls"""
+    import grid
+    from allmydata.immutable import upload
+    from cryptography.hazmat.primitives.ciphers import Cipher, algorithms, modes
+    lines, wants, cases = [], [], []
+    with grid.Runtime(seed=rng.randrange(1 << 30)) as rt:
+        for _ in range(n):
+            size = rng.choice([56, 60, 100, 150, 257])
+            chunk = rng.choice([1, 3, 7, 16, 50, 64, 300])
+            data = bytes(rng.randrange(256) for _ in range(size))
+            u = upload.Data(data, convergence=b"c44-reader-probe")
+            u.set_default_encoding_parameters({"k": 2, "happy": 1, "n": 3, "max_segment_size": 64})
+            eu = upload.EncryptAnUploadable(u, chunk_size=chunk)
+            reu = upload.RemoteEncryptedUploadable(eu, upload.UploadStatus())
+            key = rt.wait(u.get_encryption_key())
+            ks = Cipher(algorithms.AES(key), modes.CTR(b"\x00" * 16)).encryptor().update(b"\x00" * size)
+            ct = bytes(a ^ b for a, b in zip(data, ks))
+            reads, outs, pos = [], [], 0
+            first = True
+            for _ in range(rng.randrange(1, 6)):
+                if rng.random() < 0.1 and pos > 0:
+                    off = rng.randrange(0, pos)                       # backwards: refused
+                else:
+                    off = pos + (rng.choice([0, 0, 1, 5, 20, 60, 120]) if not first or rng.random() < 0.7 else 0)
+                first = False
+                ln = rng.choice([0, 1, 7, 16, 50, 100])
+                if off > size and rng.random() < 0.8:
+                    off = min(off, size)
+                try:
+                    got = b"".join(rt.wait(reu.remote_read_encrypted(off, ln)))
+                    outs.append(got.hex() or "-")
+                    if off + ln <= size and got != ct[off:off + ln]:
+                        ctx.violation("the client-side reader returned wrong ciphertext for bytes [%d, %d) after skipping from %d" % (off, off + ln, pos),
+                                      {"probe": "reader", "size": size, "chunk": chunk, "reads": reads + [[off, ln]]}, "client-reader-wrong-ciphertext")
+                    pos = off + len(got)
+                except AssertionError:
+                    outs.append("N")
+                reads.append([off, ln])
+            lines.append("reader %d %s %s %s" % (chunk, data.hex(), ks.hex(), ",".join("%d:%d" % tuple(r) for r in reads)))
+            wants.append(";".join(outs))
+            cases.append({"probe": "reader", "size": size, "chunk": chunk, "reads": reads})
+            ctx.case(("reader", size, chunk, tuple(map(tuple, reads))))
+            ctx.count("reader-histories")
+    ctx.compare("client-side reader: bytes returned by remote_read_encrypted for a sequence of (offset, length)", cases, wants, ctx.model(lines))
+
+
 def common_infra(msg):
     import common
     return common.InfraError(msg)
@@ -571,6 +637,11 @@ def run(ctx):
     except Exception:
         pass
     pre = []
+    if ctx.replay and isinstance(ctx.replay.get("case"), dict) and ctx.replay["case"].get("probe") == "reader":
+        import random
+        reader_probe(ctx, random.Random("c44-reader-corpus"), 25)
+        reader_probe(ctx, ctx.subrng("reader"), ctx.budget(60, 1500))
+        return
     if ctx.replay and isinstance(ctx.replay.get("case"), dict) and ctx.replay["case"].get("pre"):
         scen, pre = [], [pre_from(ctx.replay["case"])]
     elif ctx.replay and isinstance(ctx.replay.get("case"), dict) and "chunk" in ctx.replay["case"]:
@@ -593,8 +664,17 @@ def run(ctx):
                 cases.append(dict(case, line=line if len(line) < 600 else line[:600] + "…"))
                 if getattr(s, "corpus", False):
                     ctx.count("corpus-scenarios")
+    corpus_only = bool(os.environ.get("VERIF_CORPUS_ONLY"))
     if not ctx.replay:
+        import random
+        reader_probe(ctx, random.Random("c44-reader-corpus"), 25)        # fixed
+        if not corpus_only:
+            reader_probe(ctx, ctx.subrng("reader"), ctx.budget(60, 1500))
         run_main(corpus())       # fixed corpus first: every cut point of a multi-chunk file, production chunk sizes
+        pre = pre_corpus() + ([] if corpus_only else pre)
+        if corpus_only:
+            scen = []
+            ctx.note("VERIF_CORPUS_ONLY: random families skipped")
     ql, qw, qc = [], [], []
     for s in pre:
         if len(ctx.violations) >= 50:
